@@ -28,6 +28,7 @@ func init() {
 		Run:  c01Flags})
 	register(&Rule{ID: "C01.clean", Floor: 20,
 		Text: "a path that is not lexically clean behaves as its Clean() form: no string parameter of an exported OrefaFS method reaches an index of the path map (directly or through an unexported helper) except through Abs / SplitAbs of it; MemFS indexes its directories only with parts produced by the path iterator over the absolute path",
+		Also: []string{"C05"},
 		Run:  c01Clean})
 	register(&Rule{ID: "C01.last", Floor: 4,
 		Text: "an entry named after the element at which the walk stopped is created only when that element is the last one of the path (pi.IsLast()): a missing intermediate directory is ENOENT, never a creation under the wrong name (MkdirAll, which creates the intermediate directories, excepted)",
